@@ -32,6 +32,9 @@ type Genesis struct {
 	Auth auth.GenesisState
 	Pos  posTypes.GenesisState
 	Gov  govTypes.GenesisState
+	// PosFirst: initialise pos before auth (an exported state: auth then derives the supply from every account,
+	// the staked pool included, which is auth.InitGenesis's stated contract)
+	PosFirst bool
 }
 
 type App struct {
@@ -112,8 +115,14 @@ func (app *App) initChainer(ctx sdk.Ctx, req abci.RequestInitChain) abci.Respons
 			g = &gg
 		}
 	}
-	auth.InitGenesis(ctx, app.AK, g.Auth)
-	ups := pos.InitGenesis(ctx, app.PK, app.AK, g.Pos)
+	var ups []abci.ValidatorUpdate
+	if g.PosFirst {
+		ups = pos.InitGenesis(ctx, app.PK, app.AK, g.Pos)
+		auth.InitGenesis(ctx, app.AK, g.Auth)
+	} else {
+		auth.InitGenesis(ctx, app.AK, g.Auth)
+		ups = pos.InitGenesis(ctx, app.PK, app.AK, g.Pos)
+	}
 	app.GK.InitGenesis(ctx, g.Gov)
 	return abci.ResponseInitChain{Validators: ups}
 }
